@@ -110,6 +110,10 @@ def make_context(c, full=False):
     inds = pd.DataFrame(c['inds'], columns=c['ind_cols'])
     for col, t in c.get('alt_int_cols', {}).items():
         alts[col] = alts[col].astype(t)
+    if c.get('alt_index') is not None:
+        # the row LABELS of the table (a permutation of 0..J-1 after a sort / reorder without reset_index,
+        # or arbitrary integers); the default is the RangeIndex
+        alts.index = pd.Index([int(x) for x in c['alt_index']])
     for col, t in c.get('ind_int_cols', {}).items():
         inds[col] = inds[col].astype(t)
     part = Partition([set(s) for s in c['segments']], full_set=set(c['full_set']) if c.get('full_set') else None)
@@ -217,15 +221,18 @@ def run_full(c):
     Vfull = {int(a[0]): rename_copy(V, names, f'_{int(a[0])}') for a in c['alts']}
     res = {}
 
-    def both(tag, sampled_expr, full_expr):
+    def both(tag, sampled_thunk, full_thunk):
+        """each side is BUILT and evaluated under its own try: a refusal by a validator is data"""
         r = {}
         try:
+            sampled_expr = sampled_thunk()
             r['tree'] = expr_to_json(sampled_expr)
             r['sample'] = [cell(x) for x in np.atleast_1d(sampled_expr.get_value_c(database=db, prepare_ids=True))]
         except Exception as e:  # noqa
             r['sample_exc'] = f'{type(e).__name__}: {e}'[:300]
-        if full_expr is not None:
+        if full_thunk is not None:
             try:
+                full_expr = full_thunk()
                 r['full'] = [cell(x) for x in np.atleast_1d(full_expr.get_value_c(database=wide, prepare_ids=True))]
             except Exception as e:  # noqa
                 r['full_exc'] = f'{type(e).__name__}: {e}'[:300]
@@ -233,7 +240,7 @@ def run_full(c):
 
     # partial = the strata are NOT fully sampled: only the value on the sample is wanted (compared by the
     # harness with the closed form of the corrected logit)
-    both('logit', gm.get_logit(), None if c.get('partial') else models.loglogit(Vfull, None, Variable(chc)))
+    both('logit', gm.get_logit, None if c.get('partial') else (lambda: models.loglogit(Vfull, None, Variable(chc))))
     if c.get('nested'):
         from biogeme.nests import OneNestForNestedLogit, NestsForNestedLogit
         ids = [int(a[0]) for a in c['alts']]
@@ -242,9 +249,9 @@ def run_full(c):
             return NestsForNestedLogit(choice_set=ids, tuple_of_nests=tuple(
                 OneNestForNestedLogit(mu_of(n), list(n['alts']), name=n['name'])
                 for n in c['nested']))
-        both('nested', gm.get_nested_logit(mk()), models.lognested(Vfull, None, mk(), Variable(chc)))
+        both('nested', lambda: gm.get_nested_logit(mk()), lambda: models.lognested(Vfull, None, mk(), Variable(chc)))
     if c.get('cnl'):
-        both('cnl', gm.get_cross_nested_logit(), models.logcnl(Vfull, None, context.cnl_nests, Variable(chc)))
+        both('cnl', gm.get_cross_nested_logit, lambda: models.logcnl(Vfull, None, context.cnl_nests, Variable(chc)))
     out['results'] = res
     out['sample_ids'] = [[cell(db.data[f'{idc}_{j}'].iloc[i]) for j in range(out['J'])] for i in range(len(c['inds']))]
     out['log_proba'] = [[cell(db.data[f'_log_proba_{j}'].iloc[i]) for j in range(out['J'])] for i in range(len(c['inds']))]
@@ -280,7 +287,7 @@ def run_validate(c):
     # check_partition in isolation (the constructor performs many unrelated checks)
     obj = object.__new__(SamplingContext)
     obj.partition = [StratumTuple(subset=set(s), sample_size=k) for s, k in zip(c['segments'], c['sizes'])]
-    obj.alternatives = pd.DataFrame({'alt_id': c['table']})
+    obj.alternatives = pd.DataFrame({'alt_id': c['table']}, index=c.get('table_index'))
     obj.id_column = 'alt_id'
     try:
         obj.check_partition()
